@@ -53,4 +53,34 @@ example : classify (.single wBase) (some wHost) [47, 107, 101, 121] =
 example : isValidDomain [101, 120, 97, 109, 112, 108, 101, 46, 99, 111, 109, 58, 43, 56, 48] = false := by
   decide
 
+/-! ## repaired: F-sigv2e2e-6 (class `vhost-bucket-derivation`, listed under C11) — the port of the
+`Host` value was taken as part of the bucket of a host outside the base domains -/
+
+/-- `s3.us-west-1.amazonaws.com` -/
+def wEndpoint : Bytes := [115, 51, 46, 117, 115, 45, 119, 101, 115, 116, 45, 49, 46, 97, 109, 97, 122, 111, 110, 97, 119,
+  115, 46, 99, 111, 109]
+/-- `static.example.com:8080`, the Host of the documentation's Upload example -/
+def wCnameHost : Bytes := exCname ++ colon :: exPort
+
+/-- the host parsers answer the bucket `static.example.com` now (before 9d4d028 the bucket was
+    `static.example.com:8080`, which `check_bucket_name` refuses) … -/
+example : singleParse wEndpoint wCnameHost = some ⟨wCnameHost, some exCname⟩ := by decide
+example : multiParse [exDomain2, wEndpoint] wCnameHost = some ⟨wCnameHost, some exCname⟩ := by decide
+/-- … whatever case the host is written in (`Static.Example.COM:8080`) … -/
+example : singleParse wEndpoint
+    ([83, 116, 97, 116, 105, 99, 46, 69, 120, 97, 109, 112, 108, 101, 46, 67, 79, 77] ++ colon :: exPort) =
+    some ⟨[83, 116, 97, 116, 105, 99, 46, 69, 120, 97, 109, 112, 108, 101, 46, 67, 79, 77] ++ colon :: exPort,
+      some exCname⟩ := by decide
+/-- … and `PUT /db-backup.dat.gz` of that example reaches the bucket `static.example.com`, key
+    `db-backup.dat.gz` (it was answered `InvalidBucketName`) -/
+example : classify (.single wEndpoint) (some wCnameHost) (slash :: exCnameKey) =
+    .ok (.object exCname exCnameKey) := by rfl
+/-- a base domain that carries a port is still matched as a whole: `b.example.org:9000` belongs to
+    `example.org:9000` (bucket `b`), and under `example.org:9001` it is a host of its own whose
+    bucket is `b.example.org` -/
+example : singleParse (exDomain2 ++ colon :: [57, 48, 48, 48]) (98 :: dot :: exDomain2 ++ colon :: [57, 48, 48, 48]) =
+    some ⟨exDomain2 ++ colon :: [57, 48, 48, 48], some [98]⟩ := by decide
+example : singleParse (exDomain2 ++ colon :: [57, 48, 48, 49]) (98 :: dot :: exDomain2 ++ colon :: [57, 48, 48, 48]) =
+    some ⟨98 :: dot :: exDomain2 ++ colon :: [57, 48, 48, 48], some (98 :: dot :: exDomain2)⟩ := by decide
+
 end S3V.C12
